@@ -23,12 +23,15 @@ import (
 	"os"
 	"os/exec"
 	"path/filepath"
+	"regexp"
 	"sort"
 	"strconv"
 	"strings"
 	"syscall"
 	"time"
 
+	"rare/pkg/aggregation"
+	"rare/pkg/aggregation/sorting"
 	"rare/pkg/color"
 	"rare/pkg/expressions/funclib"
 	"rare/pkg/expressions/stdlib"
@@ -55,6 +58,8 @@ type c08In struct {
 	Unicode  bool              `json:"unicode_enabled"`     // termunicode.UnicodeEnabled
 	Compare  bool              `json:"compare,omitempty"`   // flat: output compared with the model
 	Blocks   int64             `json:"bar_blocks,omitempty"` // flat bar: termscaler.LengthVal(..) oracle
+	Accum    string            `json:"accum,omitempty"`      // acc | group | sort: the template is the -a / -g / --sort expression of an AccumulatingGroup, groups_hex are the samples
+	Index    *int64            `json:"index,omitempty"`      // accum: the template is exactly {index}
 	Expect   string            `json:"expect,omitempty"`     // "inf": an @for that never ends by its condition must yield <INF>
 }
 type c08Out struct {
@@ -78,6 +83,7 @@ type wReq struct {
 	Keys    map[string]string `json:"k"`
 	Color   bool              `json:"c"`
 	Unicode bool              `json:"u"`
+	Accum   string            `json:"a,omitempty"` // "", or acc | group | sort: evaluate Tpl inside an AccumulatingGroup on the samples Groups
 }
 type wResp struct {
 	Outcome string `json:"o"`
@@ -109,6 +115,9 @@ func runOnce(opt bool, req *wReq) (out string, note string, ok bool) {
 	for i, g := range req.Groups {
 		groups[i] = unhex(g)
 	}
+	if req.Accum != "" {
+		return runAccum(opt, req.Accum, unhex(req.Tpl), groups)
+	}
 	keys := map[string]string{}
 	for k, v := range req.Keys {
 		keys[unhex(k)] = unhex(v)
@@ -124,6 +133,43 @@ func runOnce(opt bool, req *wReq) (out string, note string, ok bool) {
 		_ = kb.BuildKey(ctx)
 	}
 	return out, "", true
+}
+
+// the contexts of pkg/aggregation/accumulator.go (rare reduce): the expression is the accumulator (-a), the group
+// (-g) or the sort key (--sort) of an AccumulatingGroup that samples the given elements.
+// Observable: acc -> the accumulated value of the (only) group; group -> the group keys; sort -> the sorted group keys
+func runAccum(opt bool, mode, expr string, samples []string) (string, string, bool) {
+	ag := aggregation.NewAccumulatingGroup(funclib.NewKeyBuilderEx(opt))
+	var err error
+	switch mode {
+	case "acc":
+		err = ag.AddDataExpr("x", expr, "")
+	case "group":
+		err = ag.AddGroupExpr("k", expr)
+		ag.AddDataExpr("n", "{sumi {.} 1}", "0")
+	default:
+		ag.AddGroupExpr("k", "{1}")
+		ag.AddGroupExpr("j", "{2}")
+		ag.AddDataExpr("n", "{sumi {.} 1}", "0")
+		err = ag.SetSort(expr)
+	}
+	note := ""
+	if err != nil {
+		note = "compile error"
+	}
+	for _, el := range samples {
+		ag.Sample(el)
+	}
+	gs := ag.Groups(sorting.ByName)
+	var parts []string
+	for _, g := range gs {
+		if mode == "acc" {
+			parts = append(parts, strings.Join(ag.Data(g), "\x01"))
+		} else {
+			parts = append(parts, string(g))
+		}
+	}
+	return strings.Join(parts, "\x01"), note, true
 }
 
 func workerMain() {
@@ -231,7 +277,7 @@ func runImpl(in *c08In) c08Out {
 		theWorker = startWorker()
 	}
 	w := theWorker
-	req := wReq{Tpl: in.Template, Groups: in.Groups, Keys: map[string]string{}, Color: in.Color, Unicode: in.Unicode}
+	req := wReq{Tpl: in.Template, Groups: in.Groups, Keys: map[string]string{}, Color: in.Color, Unicode: in.Unicode, Accum: in.Accum}
 	for k, v := range in.Keys {
 		req.Keys[hx(k)] = hx(v)
 	}
@@ -479,6 +525,9 @@ func finish(in c08In, tags []string, nontrivial bool) Case {
 		}
 		term = "cr " + CoqList(vals) + " " + coqOutcome(out, out.Len <= 8192)
 		tags = append(tags, "range:predicted")
+	} else if in.Accum != "" && in.Accum != "sort" && in.Index != nil && len(in.Groups) == 1 {
+		term = "cacc \"" + in.Groups[0] + "\" " + Z(*in.Index) + " " + coqOutcome(out, out.Len <= 8192)
+		tags = append(tags, "accum:predicted")
 	} else if in.Expect == "inf" {
 		term = "ci " + coqOutcome(out, out.Len <= 8192)
 	} else {
@@ -494,7 +543,7 @@ func finish(in c08In, tags []string, nontrivial bool) Case {
 	if in.Compare && ship {
 		tags = append(tags, "compared-output")
 	}
-	key := in.Template + "|" + strings.Join(in.Groups, ",") + fmt.Sprintf("|%v%v", in.Color, in.Unicode)
+	key := in.Accum + "|" + in.Template + "|" + strings.Join(in.Groups, ",") + fmt.Sprintf("|%v%v", in.Color, in.Unicode)
 	for _, k := range sortedKeys(in.Keys) {
 		key += "|" + k + "=" + in.Keys[k]
 	}
@@ -671,6 +720,12 @@ func c08Gen(r *Rng, n int, tier string) []Case {
 				add(in, append(tags, "capped-helper"), heavy, true)
 			}
 		}
+	}
+
+	// 1d. the contexts of `rare reduce` (pkg/aggregation/accumulator.go): group numbers of every magnitude and sign in
+	//     the accumulator (-a), group (-g) and sort (--sort) expression of an AccumulatingGroup, through the library API
+	for _, ac := range accumCases(r, 20+n/40) {
+		add(ac, textAccumTags(ac), false, true)
 	}
 
 	// 1b. {! ..} formulas: every binary operator of stdmath x both operand positions x the float boundary
@@ -861,6 +916,63 @@ func genNested(r *Rng, names []string) (c08In, []string) {
 	_, _ = neg, key
 	tags = append(tags, textTags(tpl)...)
 	return in, tags
+}
+
+// ---- accumulator / group / sort contexts
+var accumIdx = []int64{0, 1, 2, 3, 4, -1, -2, math.MinInt64, math.MaxInt64, 1 << 31, 1 << 32, -(1 << 31), 100000000, 9223372036854775806, 5}
+var accumSamples = []string{"a\x00b\x00c", "", "x", "a\x00\x00b", "\x00", "1\x002\x003\x004", "a b", "\xff\x00\xfe"}
+
+func accumIn(mode, tpl string, idx *int64, samples ...string) c08In {
+	var g []string
+	for _, x := range samples {
+		g = append(g, hx(x))
+	}
+	return c08In{Kind: "accum", Accum: mode, Index: idx, Template: hx(tpl), Text: readable(tpl), Groups: g, Unicode: true}
+}
+
+func accumCases(r *Rng, nRandom int) []c08In {
+	var out []c08In
+	// deterministic: every index x every context, on one sample (value predicted for acc / group)
+	for _, mode := range []string{"acc", "group", "sort"} {
+		for i := range accumIdx {
+			idx := accumIdx[i]
+			smp := []string{accumSamples[(i+len(mode))%len(accumSamples)]}
+			if mode == "sort" { // two different groups, otherwise nothing is compared and the sort key is never built
+				smp = append(smp, "x\x00y\x00z", "p\x00q")
+			}
+			out = append(out, accumIn(mode, fmt.Sprintf("{%d}", idx), &idx, smp...))
+		}
+	}
+	forms := []string{"{%d}", "{sumi {.} {%d}}", "{%d}-{.}", "{@map {%d} \"{0}{-1}\"}", "{coalesce {%d} {1} none}", "{if {%d} y n}", "{! [%d] + 1}", "{%d}{n}{k}"}
+	for i := 0; i < nRandom; i++ {
+		mode := Pick(r, []string{"acc", "group", "sort"})
+		idx := Pick(r, accumIdx)
+		form := Pick(r, forms)
+		var samples []string
+		for k := r.Range(1, 4); k > 0; k-- {
+			samples = append(samples, Pick(r, accumSamples))
+		}
+		if mode == "sort" {
+			samples = append(samples, "x\x00y\x00z", "p\x00q")
+		}
+		var ip *int64
+		if form == "{%d}" && len(samples) == 1 {
+			ip = &idx
+		}
+		out = append(out, accumIn(mode, fmt.Sprintf(form, idx), ip, samples...))
+	}
+	return out
+}
+
+// the domain of finding C08-accumulator-index: a group number above 10^7 in an accumulator-context expression
+var bigIndex = regexp.MustCompile(`[{\[][0-9]{8,}[}\]]`)
+
+func textAccumTags(in c08In) []string {
+	tags := []string{"accum:" + in.Accum}
+	if bigIndex.MatchString(unhex(in.Template)) {
+		tags = append(tags, "kf:C08-accumulator-index")
+	}
+	return tags
 }
 
 // ---- mini-languages parsed by libraries behind the forwarders
@@ -1275,6 +1387,9 @@ func c08Replay(desc json.RawMessage) (Case, error) {
 			in, tags = n, t
 		}
 	}
+	if in.Kind == "accum" {
+		tags = append(tags, textAccumTags(in)...)
+	}
 	if in.Kind == "nested" || in.Kind == "malformed" {
 		tags = append(tags, textTags(unhex(in.Template))...)
 	}
@@ -1334,6 +1449,7 @@ func main() {
 			"mutations (insert/delete/replace by brace, quote, backslash, blank; truncation; trailing backslash; duplicated prefix) of well-formed ones; " +
 			"(1b) {! ..} formulas: every key of stdmath ops / uniOps (read from the source) x both operand positions x the float pool (0, -0, 1e308, NaN, +-Inf, non-zero magnitudes below 1 such as 0.5, -0.25, 1e-300, 5e-324, neighbours of +-1 and +-2^63, non-integers 2.5, -1.5, shift counts around 64), operands as constants (folded at compile time) and as group references; " +
 			"(1c) arguments parsed as a small language by a library (printf formats of format, layouts / zones / bucket and attribute names of the time helpers, gjson paths, durations, @split delimiters, lookup tables): every truncated or unpaired tail (lone %, %-, %5, %., %[, quotes, brackets, backslashes) after plain prefixes, as a template constant and via a group, plus random strings of each grammar; " +
+			"(1d) the accumulator, group and sort contexts of rare reduce (aggregation.AccumulatingGroup through the library API): group numbers 0..5, negative, +-2^31, 2^32, 10^8, MinInt64, MaxInt64 in the -a / -g / --sort expression, alone (value predicted) and inside helpers; " +
 			"(0) the inputs of the recorded findings. Non-trivial: an argument is a boundary value, or the case is nested / malformed. Distinct: by " +
 			"(template, groups, keys, colour/unicode switches).",
 		Gen:    c08Gen,
